@@ -297,7 +297,8 @@ def run_history(ctx, rng, n_ops, hist_no, fixed=None):
         if isinstance(o, TagNode):
             real.dump_el(o)
     w0 = real.dump_world()
-    rec = {"docs": docs_xml, "w0": w0, "steps": [], "hist": hist_no}
+    rec = {"docs": docs_xml, "w0": w0, "steps": [], "hist": hist_no,
+           "pool": pool if fixed else [impl.extract(o) for o in keep]}
     w = w0
     mode = rng.random()
     for step in range(n_ops):
@@ -350,7 +351,7 @@ def compare(ctx, rec, val):
         return
     for st, (cr, tr, cw), (ar, aw) in zip(rec["steps"], cs, as_):
         o, F = st["op"], st["F"]
-        case = {"docs": rec["docs"], "pool_and_initial_world": rec["w0"], "ops": [[s["F"], s["op"]] for s in rec["steps"]],
+        case = {"docs": rec["docs"], "pool": rec["pool"], "initial_world": rec["w0"], "ops": [[s["F"], s["op"]] for s in rec["steps"]],
                 "failing_step": rec["steps"].index(st), "classes": st["classes"]}
         ctx.count(1, o[0] + ("" if all(F) else "/filtered"))
         for t in tr:
@@ -369,10 +370,11 @@ def compare(ctx, rec, val):
             return
         if cr[0] == "crash":
             return
+        tie_broken = False
         if T.norm_cworld(cw) != st["w"]:
             ctx.mismatch("cstep state vs implementation (lxml slots, chains, identities)",
                          {"case": case, "impl": st["w"], "model": T.norm_cworld(cw)})
-            return
+            tie_broken = True          # still ask whether the property itself fails here (spec as oracle)
         # ---- the property: the client's view vs astep on the plain tree
         if st["view_err"]:
             ctx.fail("reading the attributes raises " + st["view_err"],
@@ -383,9 +385,10 @@ def compare(ctx, rec, val):
             ctx.fail("result differs from the plain-tree edit", dict(case, impl=st["exc"], spec=ar), classify)
             return
         if T.norm_aworld(aw) != st["view"]:
-            sticky = list(case["classes"])
             ctx.fail("tree after the call differs from the same edit on a plain ordered tree",
                      dict(case, impl=st["view"], spec=T.norm_aworld(aw)), classify)
+            return
+        if tie_broken:
             return
 
 
@@ -420,7 +423,7 @@ def replay_open(f):
 
 def run(ctx, args):
     ctx.branches, ctx.skipped = {}, {}
-    ctx.regen([])
+    ctx.regen(["GenWs.v"])
     ctx.build("Props/C01.vo")
     quick = ctx.tier == "quick"
     recs = []
